@@ -6,7 +6,8 @@ props = [json.loads(l) for l in open(os.path.join(V, "properties.jsonl")) if l.s
 cfgs = {}
 for f in sorted(glob.glob(os.path.join(V, "harness", "*", "check.json"))):
     c = json.load(open(f))
-    if c.get("claim", True):
+    claimed = set(open(os.path.join(V, "claimed.txt")).read().split())
+    if c.get("claim", True) and c["property"] in claimed:
         cfgs[c["property"]] = (os.path.basename(os.path.dirname(f)), c)
 na_path = os.path.join(V, "not_applicable.json")
 na_reasons = json.load(open(na_path)) if os.path.exists(na_path) else {}
